@@ -6,7 +6,7 @@
         abstract message (Spec/Http1Grammar.v msg) + body.  MODEL: analyse (render msg ++ body);
         SPEC: expect msg when wf msg, else -; known: wf msg && known msg.  (The Rust harness renders
         the same message with its own renderer.)
-        <value> = r<hex>  |  l<item>,<item>,..   item = <pre hex>.<tag hex>.<n | w<o1 hex>_<o2 hex>_<q hex>>.<post hex>
+        <value> = r<hex>  |  l<item>,<item>,..   item = <pre hex>.<tag hex>.<n | w<o1 hex>_<o2 hex>_<q hex>>.<post hex>   (W instead of w: the literal is "Q=")
    result:  NONE | UNSPEC (HTTP/2 adapter would be tried / not modelled) |
      request : <method> <uri hex> HTTP/1.x hdr=<name hex>:<value hex|->:<position>,..|- cookies=<name hex>:<value hex|->:<position>,..|-
                referer=<hex|-> ua=<hex|-> lang=<hex|-|UNSPEC> sig=<hex of the printed observation>
@@ -22,13 +22,14 @@ Definition bad : bytes := bs "BADCASE".
 Definition fields' (l : bytes) : list bytes := filter (fun f => negb (bytes_eqb f [])) (split_byte sp l).
 Definition read_hex_dash (t : bytes) : option bytes := if bytes_eqb t (bs "-") then Some [] else read_hex t.
 
-Definition parse_weight (t : bytes) : option (option (bytes * bytes * bytes)) :=
-  if bytes_eqb t (bs "n") then Some None else
+(* weight token -> (weight, "Q=" flag) *)
+Definition parse_weight (t : bytes) : option (option (bytes * bytes * bytes) * bool) :=
+  if bytes_eqb t (bs "n") then Some (None, false) else
   match t with
-  | b :: r => if beqb b "w"%byte then
+  | b :: r => if beqb b "w"%byte || beqb b "W"%byte then
                 match split_byte "_"%byte r with
                 | [a; c; q] => match read_hex a, read_hex c, read_hex q with
-                               | Some a', Some c', Some q' => Some (Some (a', c', q'))
+                               | Some a', Some c', Some q' => Some (Some (a', c', q'), beqb b "W"%byte)
                                | _, _, _ => None end
                 | _ => None end
               else None
@@ -36,7 +37,8 @@ Definition parse_weight (t : bytes) : option (option (bytes * bytes * bytes)) :=
 Definition parse_item (t : bytes) : option lang_item :=
   match split_byte "."%byte t with
   | [a; g; w; p] => match read_hex a, read_hex g, parse_weight w, read_hex p with
-                    | Some a', Some g', Some w', Some p' => Some {| li_pre := a'; li_tag := g'; li_weight := w'; li_post := p' |}
+                    | Some a', Some g', Some (w', up), Some p' =>
+                        Some {| li_pre := a'; li_tag := g'; li_weight := w'; li_post := p'; li_qupper := up |}
                     | _, _, _, _ => None end
   | _ => None end.
 Fixpoint all_some {A} (l : list (option A)) : option (list A) :=
